@@ -1,5 +1,6 @@
 """Candle stream generators shared by the bounded stand-ins (seeded, deterministic)."""
 import random
+import zlib
 from datetime import datetime, timedelta
 
 from hexital.core.candle import Candle
@@ -13,7 +14,7 @@ def mk(o, h, l, c, v, ts=None):
 
 def stream(kind, n, seed=0, step=timedelta(minutes=1), start=T0, with_ts=True):
     """kinds: random, flat, rising, falling, zerovol, volatile_then_flat, small, big, sawtooth, gappy (ts gaps), dup (duplicate ts)"""
-    rnd = random.Random((hash(kind) & 0xFFFF) * 1000003 + seed)
+    rnd = random.Random((zlib.crc32(kind.encode()) & 0xFFFF) * 1000003 + seed)
     out = []
     price = rnd.uniform(50, 150)
     ts = start
